@@ -135,3 +135,66 @@ fn replay_c09_tx_counts() {
 }
 """ % (w["inputs"], w["outputs"], min(w["message_len"], 64))
     return ("replay_c09_tx_counts", src)
+
+
+def c09_m_tx_size_prediction(ctx, v):
+    """Transaction::get_serialized_size() equals the length of serialize_for_net() for transactions
+    with 0..=2 inputs, 0..=2 outputs, 0..=2 hops and a payload of any length below 2^32."""
+    size_fn = ctx.body(r"transaction::<impl at [^>]*>::get_serialized_size$")
+    ser = ctx.body(r"transaction::<impl at [^>]*>::serialize_for_net$")
+    combos = [(a, b, h) for a in (0, 1, 2) for b in (0, 1) for h in (0, 1, 2)] if ctx.tier == "quick" else [(a, b, h) for a in (0, 1, 2) for b in (0, 1, 2) for h in (0, 1, 2, 3)]
+    for nin, nout, nh in combos:
+        ex = ctx.executor(loop_bound=max(nin, nout, nh) + 4, inline="auto", max_paths=3000)
+        ins = [L.sym_slip(ctx, ex, "in%d" % i) for i in range(nin)]
+        outs_ = [L.sym_slip(ctx, ex, "out%d" % i) for i in range(nout)]
+        hops = [ctx.mk_struct(ex, "Hop", "hop%d" % i) for i in range(nh)]
+        data = ex.fresh_value("Vec<u8>", "data")
+        ttype = ex.fresh_value("TransactionType", "type")
+        tx = ctx.mk_struct(ex, "Transaction", "tx", **{"from": S.Seq(ins, "Slip"), "to": S.Seq(outs_, "Slip"), "path": S.Seq(hops, "Hop"), "data": data, "transaction_type": ttype})
+        pre = [z3.ULE(data.len.bv, 1 << 32), L.enum_in_range(ttype, L.TX_TYPES)] + [L.enum_in_range(L.slip_field(ctx, s, "slip_type"), L.SLIP_TYPES) for s in ins + outs_]
+        st = S.State(); st.pc.extend(pre)
+        o1 = [o for o in ex.run(size_fn, [S.Ref(S.Cell(tx))], st)]
+        st2 = S.State(); st2.pc.extend(pre)
+        o2 = [o for o in ex.run(ser, [S.Ref(S.Cell(tx))], st2)]
+        v.paths += len(o1) + len(o2)
+        for o in o1 + o2:
+            if o.kind in ("unsupported", "unwound", "path-limit"):
+                return v.undecided("%d/%d/%d %s %s" % (nin, nout, nh, o.kind, o.info))
+            if o.kind == "panic":
+                v.fail("%d/%d/%d panic %s" % (nin, nout, nh, o.info))
+        r1 = [o for o in o1 if o.kind == "return"]
+        r2 = [o for o in o2 if o.kind == "return"]
+        ok = 0
+        for a in r1:
+            for b in r2:
+                cond = a.pc + b.pc
+                r, m = ex.model_for(cond, a.value.bv != b.value.len.bv)
+                v.queries += 1
+                if r == z3.sat:
+                    wit = dict(inputs=nin, outputs=nout, hops=nh, payload_len=m.eval(data.len.bv, model_completion=True).as_long(),
+                               predicted=m.eval(a.value.bv, model_completion=True).as_long(), encoded=m.eval(b.value.len.bv, model_completion=True).as_long())
+                    v.fail("predicted size %d differs from the encoded size %d for a transaction with %d inputs, %d outputs, %d hops" % (wit["predicted"], wit["encoded"], nin, nout, nh), wit)
+                    if v.replay_rust is None:
+                        v.replay_rust = _replay_size(wit)
+                elif r == z3.unsat:
+                    ok += 1
+        v.covers_total += 1
+        v.covers_sat += 1 if ok else 0
+
+
+def _replay_size(w):
+    src = """
+#[test]
+fn replay_c09_tx_size() {
+    use saito_core::core::consensus::transaction::Transaction;
+    use saito_core::core::consensus::slip::Slip;
+    use saito_core::core::consensus::hop::Hop;
+    let mut tx = Transaction::default();
+    for _ in 0..%d { tx.from.push(Slip::default()); }
+    for _ in 0..%d { tx.to.push(Slip::default()); }
+    for _ in 0..%d { tx.path.push(Hop::default()); }
+    tx.data = vec![1u8; %d];
+    assert_eq!(tx.get_serialized_size(), tx.serialize_for_net().len(), "predicted size differs from the encoded size");
+}
+""" % (w["inputs"], w["outputs"], w["hops"], min(w["payload_len"], 4096))
+    return ("replay_c09_tx_size", src)
